@@ -84,8 +84,8 @@ Definition ostep (sdk : bool) (ip l s : Z) (o : op) (ob : obs) : bool :=
        | OCancel =>
            let m := Z.min l s in
            if code =? 0 then (l' =? l - m) && (s' =? s - m)
-           else (* only the SDK's default implementation may fail, and only beyond i128 *)
-             sdk && (i128max <? m) && (l' =? l) && (s' =? s)
+           else (* netting never fails, on either implementation (both override the trait default) *)
+             false
        end)
   end.
 
